@@ -3,6 +3,8 @@ import Oracle.C01
 import Oracle.C11
 import Oracle.C06a
 import Oracle.C09
+import Oracle.C13
+import Oracle.C14
 open Oracle
 
 def dispatch (op : String) (args res : List String) : String :=
@@ -10,7 +12,8 @@ def dispatch (op : String) (args res : List String) : String :=
   else if op == "f64ofint" then handleF64Int args res
   else
     let handlers : List (String → List String → List String → Option String) :=
-      [Oracle.C01.handle, Oracle.C11.handle, Oracle.C06a.handle, Oracle.C09.handle]
+      [Oracle.C01.handle, Oracle.C11.handle, Oracle.C06a.handle, Oracle.C09.handle,
+       Oracle.C13.handle, Oracle.C14.handle]
     match handlers.findSome? (fun h => h op args res) with
     | some v => v
     | none => "bad unknown-op-or-args " ++ op
